@@ -369,6 +369,18 @@ pub fn expt(vm: &mut Vm) -> Result<VCell, Error> {
     let exp = match exp.to_u32() {
         Some(exp) => exp,
         None => {
+            // The powers of exact 0, 1 and -1 do not grow with the exponent.
+            let zero = Number::from(0);
+            let one = Number::from(1);
+            if exp > zero && !matches!(x, Number::Float(_)) {
+                if x == zero || x == one {
+                    return Ok(x.into());
+                }
+                if x == Number::from(-1) {
+                    let even = (&exp % &Number::from(2)) == Some(zero);
+                    return Ok(if even { one } else { x }.into());
+                }
+            }
             return Err(InvalidSyntax("expt: exponent is too large".into()));
         }
     };
